@@ -281,7 +281,7 @@ def run_case(case, R):
     elif k == "arrays":
         shape = tuple(case["s"])
         R.state(("arrays", shape))
-        for var in ("canon", "T", "zeroterm"):
+        for var in ("canon", "T", "zeroterm", "rev"):
             if var == "T" and len(shape) < 2:
                 continue
             render_and_check(R, C09.tagged(shape, variant=var), f"tagged{shape}/{var}", DISPLAY, [SIGNS[0], SIGNS[1], SIGNS[3]], ["array"])
